@@ -15,6 +15,8 @@
      callback;
    - dropping a held handle of an open client writes exactly one Remove* command with the registration id;
    - the first close writes exactly one ClientClose, a later one nothing;
+   - while the driver does not read its command ring and the ring is full (SetRingFull, an input of the history) a drop
+     and a close write nothing; a dropped subscription is released locally all the same;
    - every command carries the client id and a correlation id larger than all before.
    Where the statement is silent (an error answer after a ready answer, two different error answers) the
    registration becomes `LAny` and is not judged any more. Panic / Hang of a duty cycle or of close is judged by
@@ -107,7 +109,7 @@ Definition ready_step (ev : event) (q : ost) : list (kind * Z * life) * option c
 
 Inductive verdict := Bad | Stop | Next (q : ost).
 
-Definition c09_step (c0 tdrv : Z) (q : ost) (o : op) (x : out) : verdict :=
+Definition c09_step (c0 tdrv : Z) (full : bool) (q : ost) (o : op) (x : out) : verdict :=
   let '(r, cbs, cmds) := x in
   match o with
   | Add k a1 a2 a3 =>
@@ -163,6 +165,14 @@ Definition c09_step (c0 tdrv : Z) (q : ost) (o : op) (x : out) : verdict :=
            end
       else match rlookup k r' (q_regs q) with
       | Some (LReady (Some _) _ _ _) =>
+          if full then
+            (* the ring refuses the Remove command: nothing is written; a subscription / exclusive publication is released
+               locally all the same, what a publication / counter registration looks like afterwards is not specified *)
+            match cmds with
+            | [] => Next (set_regs (rset k r' (match k with KSub | KXPub => LGone | _ => LAny end) (q_regs q)) q)
+            | _ => Bad
+            end
+          else
           match cmds with
           | [Cmd ty cid id [a]] =>
               if (ty =? remove_cmd_type k) && (cid =? c0) && (q_max q <? id) && (a =? r')
@@ -186,6 +196,7 @@ Definition c09_step (c0 tdrv : Z) (q : ost) (o : op) (x : out) : verdict :=
       | Panic | Hang | Crash => Stop
       | _ =>
         if q_close_sent q then match cmds with [] => Next (set_qclosed true q) | _ => Bad end
+        else if full then match cmds with [] => Next (mkO (q_now q) true (q_regs q) (q_max q) (q_hmax q) true) | _ => Bad end
         else match cmds with
              | [Cmd ty cid id []] =>
                  if (ty =? GenConsts.CMD_ClientClose) && (cid =? c0) && (q_max q <? id)
@@ -194,7 +205,7 @@ Definition c09_step (c0 tdrv : Z) (q : ost) (o : op) (x : out) : verdict :=
              end
       end
   | Tick d => Next (mkO (q_now q + d) (q_closed q) (q_regs q) (q_max q) (q_hmax q) (q_close_sent q))
-  | SetDriverHb _ | SetHbCounter _ => Next q
+  | SetDriverHb _ | SetHbCounter _ | SetRingFull _ => Next q
   | DoWork b =>
       match r with
       | Panic | Hang | Crash => Stop
@@ -220,16 +231,16 @@ Definition c09_step (c0 tdrv : Z) (q : ost) (o : op) (x : out) : verdict :=
       end
   end.
 
-Fixpoint c09_run (c0 tdrv : Z) (q : ost) (ops : list op) (outs : list out) : bool :=
+Fixpoint c09_run (c0 tdrv : Z) (full : bool) (q : ost) (ops : list op) (outs : list out) : bool :=
   match ops, outs with
   | o :: ops', x :: outs' =>
-      match c09_step c0 tdrv q o x with
+      match c09_step c0 tdrv full q o x with
       | Bad => false
       | Stop => true
-      | Next q' => c09_run c0 tdrv q' ops' outs'
+      | Next q' => c09_run c0 tdrv (match o with SetRingFull b => b | _ => full end) q' ops' outs'
       end
   | _, _ => true
   end.
 
 Definition holds_c09 (c0 now0 tdrv tis : Z) (ops : list op) (outs : list out) : bool :=
-  c09_run c0 tdrv (oinit c0 now0) ops outs.
+  c09_run c0 tdrv false (oinit c0 now0) ops outs.
